@@ -67,6 +67,7 @@ fn discover_fields(secs: &Secs, endian: RunTimeEndian, cfg: &Cfg, case: &J) -> F
 }
 
 fn replay(case: &J) -> J {
+    let started = std::time::Instant::now();
     let (mut secs, addrs) = match load_base(case) {
         Some(x) => x,
         None => return json!({"skipped": true}),
@@ -175,6 +176,7 @@ fn replay(case: &J) -> J {
     out["ops"] = ops;
     out["k"] = k_eff;
     out["variants"] = json!(variants);
+    out["us"] = json!(started.elapsed().as_micros() as u64);
     out
 }
 
